@@ -345,3 +345,39 @@ def accept_sites(body, tb):
                 continue
         out.append((bi, si, t))
     return out
+
+
+def detry(t):
+    """Erase `?` everywhere in a term: Try::branch(x).Continue.0 -> x."""
+    if not isinstance(t, tuple) or not t:
+        return t
+    if t[0] == 'vfield' and t[2] == 'Continue':
+        a = m_call(t[1], name='branch', trait='Try')
+        if a is not None:
+            return detry(a[0])
+    return tuple(detry(x) if isinstance(x, tuple) else x for x in t)
+
+
+def strip_into(t):
+    """Erase Into::into / From::from conversion calls (used when comparing CBOR-building terms)."""
+    if not isinstance(t, tuple) or not t:
+        return t
+    if t[0] == 'call':
+        c = CALLEES.get(t[1])
+        if c is not None and c.name in ('into', 'from') and (c.is_trait_method('Into') or c.is_trait_method('From')) and len(t[2]) == 1:
+            return strip_into(t[2][0])
+    return tuple(strip_into(x) if isinstance(x, tuple) else x for x in t)
+
+
+def dump_fn(F, b, out=None):
+    """Debug helper: print return definitions and switch discriminants as terms."""
+    import sys
+    w = (out or sys.stdout).write
+    tb = TermBuilder(F, b)
+    for bi, si, t in ret_defs(tb):
+        w('RET bb%d %s %s\n' % (bi, b.line(bi, si), fmt(detry(t))))
+    for bi in b.normal_blocks():
+        t = b.term(bi)
+        if t and t['k'] == 'switch':
+            n = len(b.blocks[bi]['stmts'])
+            w('SW bb%d %s %s else %s\n' % (bi, fmt(detry(tb.operand_term(t['discr'], bi, n))), t['targets'], t['otherwise']))
